@@ -23,15 +23,15 @@ func Hash8(b []byte) H8 {
 
 // KMSCall is one call to the key management service.
 type KMSCall struct {
-	Seq   int64
-	At    time.Time
-	Idx   int
-	Op    string // encrypt | decrypt
-	Plain H8     // fingerprint of the plaintext key (input of encrypt, output of decrypt)
-	Full  [32]byte
+	Seq     int64
+	At      time.Time
+	Idx     int
+	Op      string // encrypt | decrypt
+	Plain   H8     // fingerprint of the plaintext key (input of encrypt, output of decrypt)
+	Full    [32]byte
 	Wrapped []byte
-	Err   string
-	Fault bool
+	Err     string
+	Fault   bool
 }
 
 // KMS monitors any KeyManagementService.
@@ -127,7 +127,11 @@ func (k *KMS) N() int { k.mu.Lock(); defer k.mu.Unlock(); return k.n }
 func (k *KMS) Count(op string) int { k.mu.Lock(); defer k.mu.Unlock(); return k.counts[op] }
 
 // Calls returns a copy of the call log.
-func (k *KMS) Calls() []KMSCall { k.mu.Lock(); defer k.mu.Unlock(); return append([]KMSCall(nil), k.calls...) }
+func (k *KMS) Calls() []KMSCall {
+	k.mu.Lock()
+	defer k.mu.Unlock()
+	return append([]KMSCall(nil), k.calls...)
+}
 
 // TakeRetained returns and forgets the retained DecryptKey outputs.
 func (k *KMS) TakeRetained() [][]byte {
@@ -140,37 +144,37 @@ func (k *KMS) TakeRetained() [][]byte {
 
 // AEADCall is one call to the AEAD.
 type AEADCall struct {
-	Seq     int64
-	Idx     int
-	Op      byte // 'E' | 'D'
-	Key     [32]byte // sha256 of the key bytes
-	Nonce   [12]byte
-	DataLen int
-	Data    H8 // fingerprint of the plaintext (encrypt input / decrypt output)
+	Seq       int64
+	Idx       int
+	Op        byte     // 'E' | 'D'
+	Key       [32]byte // sha256 of the key bytes
+	Nonce     [12]byte
+	DataLen   int
+	Data      H8 // fingerprint of the plaintext (encrypt input / decrypt output)
 	PlainFull [32]byte
-	Cipher  [32]byte // sha256 of the ciphertext (encrypt output / decrypt input)
-	KeyLen  int
-	OK      bool
-	Fault   bool
+	Cipher    [32]byte // sha256 of the ciphertext (encrypt output / decrypt input)
+	KeyLen    int
+	OK        bool
+	Fault     bool
 }
 
 // AEAD monitors any appencryption.AEAD.
 type AEAD struct {
 	Inner appencryption.AEAD
 
-	mu       sync.Mutex
-	calls    []AEADCall
-	n        int
-	Faults   map[int]bool
-	Delays   map[int]time.Duration
-	Latency  func(op string) time.Duration
-	Retained [][]byte // every slice returned by Decrypt
-	Outputs  [][]byte // copies of every Encrypt output when KeepOutputs is set
+	mu          sync.Mutex
+	calls       []AEADCall
+	n           int
+	Faults      map[int]bool
+	Delays      map[int]time.Duration
+	Latency     func(op string) time.Duration
+	Retained    [][]byte // every slice returned by Decrypt
+	Outputs     [][]byte // copies of every Encrypt output when KeepOutputs is set
 	KeepOutputs bool
-	Drop     bool
+	Drop        bool
 	// Seen maps (key hash, nonce) to the number of encryptions that used it; kept even when Drop is set.
-	pairs    map[[44]byte]int
-	Repeats  int
+	pairs   map[[44]byte]int
+	Repeats int
 }
 
 // NewAEAD wraps inner.
@@ -265,7 +269,11 @@ func (a *AEAD) Decrypt(data, key []byte) ([]byte, error) {
 func (a *AEAD) N() int { a.mu.Lock(); defer a.mu.Unlock(); return a.n }
 
 // Calls returns a copy of the call log.
-func (a *AEAD) Calls() []AEADCall { a.mu.Lock(); defer a.mu.Unlock(); return append([]AEADCall(nil), a.calls...) }
+func (a *AEAD) Calls() []AEADCall {
+	a.mu.Lock()
+	defer a.mu.Unlock()
+	return append([]AEADCall(nil), a.calls...)
+}
 
 // CallsFrom returns the calls with index >= from.
 func (a *AEAD) CallsFrom(from int) []AEADCall {
